@@ -110,6 +110,11 @@ impl<T> ClientRuntimeState<T> where T : Read + Write + Send + Sync {
                 sleep_duration = None;
             }
 
+            // a stop or close request takes precedence over a connection that happens to complete in the same iteration
+            if let Some(transition_state) = client.compute_optional_state_transition() {
+                return Ok(transition_state);
+            }
+
             // check connection completion
             if let Some(connection_result) = connection_recv.try_recv() {
                 return
@@ -342,6 +347,11 @@ impl<T> ClientRuntimeState<T> where T : Read + Write + Send + Sync {
                 debug!("threaded - process_pending_reconnect - user operation received");
                 client.handle_incoming_operation(operation_options);
                 sleep_duration = None;
+            }
+
+            // a stop or close request takes precedence over a reconnect timer that expires in the same iteration
+            if let Some(transition_state) = client.compute_optional_state_transition() {
+                return Ok(transition_state);
             }
 
             let now = Instant::now();
